@@ -7,7 +7,8 @@ From Coq Require Import List NArith ZArith Bool.
 From Falco Require Import Base.Bytes Gen.TokenTypes Model.ParseKinds Gen.ParserTables
   Model.ParseBase Model.Ast Model.ParseLit Model.ParseExpr Model.ParseStmt Model.ParseDecl Model.Yield
   Proofs.ParseTables Proofs.ParseExprYield Proofs.ParseExprTotal Proofs.ParsePratt Proofs.ParseRoundtrip
-  Proofs.ParseLitFacts Proofs.ParseStmtYield Proofs.ParseDeclYield Proofs.ParseStmtTotal Proofs.ParseDeclTotal.
+  Proofs.ParseLitFacts Proofs.ParseStmtYield Proofs.ParseDeclYield Proofs.ParseStmtTotal Proofs.ParseDeclTotal Proofs.ParseLocated Proofs.ParseLocated2 Proofs.ParseProgram Proofs.ParseProgram2
+  Proofs.ParseProgram3 Proofs.ParseProgram4 Proofs.ParseProgram5.
 Import ListNotations.
 Local Open Scope N_scope.
 
@@ -50,12 +51,10 @@ Theorem C02_parse_yield :
   forall fok ts v, parse_vcl fok ts = POK v -> no_eof ts = true -> ts = flat_map ystmt (vstmts v).
 Proof. exact parse_vcl_yield. Qed.
 
-(* snippets: the same, except that the snippet loop (which tests the token BEHIND cur for EOF)
-   drops at most one trailing token without a diagnostic; the Example in Proofs/ParseDeclYield.v
-   (`esi; foo`) shows that this happens *)
+(* snippets: the same (exact since the dangling-token fix of ParseSnippetVCL: the statement loop
+   now runs on cur, so a last token is parsed or reported, never dropped) *)
 Theorem C02_parse_snippet_yield :
-  forall fok ts v, parse_snippet fok ts = POK v -> no_eof ts = true ->
-    exists trailing, ts = flat_map ystmt (vstmts v) ++ trailing /\ (length trailing <= 1)%nat.
+  forall fok ts v, parse_snippet fok ts = POK v -> no_eof ts = true -> ts = flat_map ystmt (vstmts v).
 Proof. exact parse_snippet_yield. Qed.
 
 (* Operators group as the documented table states, parentheses overriding: for EVERY canonical
@@ -139,6 +138,40 @@ Proof. exact parse_snippet_total. Qed.
 Theorem C02_parse_snippet_no_crash : forall fok ts, long_ok ts = true -> parse_snippet fok ts <> PCrash.
 Proof. exact parse_snippet_no_crash. Qed.
 
+(* parse_error_located: the token of EVERY *ParseError the model returns is the token of the input at
+   the reported index (length ts - rem, within [0, length ts)), or the EOF token behind the input.
+   [located ts t rem := t = eof_tok \/ (1 <= rem <= length ts /\ nth_error ts (length ts - rem) = Some t)].
+   (The index is compared with the Go parser's error token on every run.) *)
+Theorem C02_parse_error_located :
+  forall fok ts k t rem, parse_vcl_or_snippet fok ts = PErr k t rem -> located ts t rem.
+Proof. exact parse_error_located. Qed.
+Theorem C02_parse_vcl_error_located :
+  forall fok ts k t rem, parse_vcl fok ts = PErr k t rem -> located ts t rem.
+Proof. exact parse_vcl_error_located. Qed.
+Theorem C02_parse_snippet_error_located :
+  forall fok ts k t rem, parse_snippet fok ts = PErr k t rem -> located ts t rem.
+Proof. exact parse_snippet_error_located. Qed.
+Theorem C02_parse_expression_error_located :
+  forall fok ts k t rem, parse_expression fok ts = PErr k t rem -> located ts t rem.
+Proof. exact parse_expression_error_located. Qed.
+
+(* program_roundtrip (M2): uniqueness of parse for statements and declarations.  For every canonical
+   program [cprog ds] - a list of canonical declarations of EVERY kind (acl with negation, long-string
+   address and mask; backend with nested .probe; director with properties and backend objects; table
+   with optional type and optional last comma; sub with parameters and return type; penaltybox;
+   ratecounter; import; include) whose blocks hold canonical statements of EVERY kind at any nesting
+   depth (set add unset remove declare call-with-arguments error return log synthetic
+   synthetic.base64 goto label include esi restart block function-call, if / else if / elseif / elsif /
+   else chains, switch with case "s" / case ~ "re" / default clauses ending in break; or fallthrough;)
+   with canonical expressions - ParseVCL on the tokens of the program returns exactly the program.
+   Statement-level follow conditions are part of [cstmt s nx] (a label is not followed by `(`, an
+   include without `;` not by `;`, an if without else not by else / elseif / elsif); the switch
+   bookkeeping (default index, no duplicate case, one default, last clause not fallthrough) is [book] /
+   [last_case_breaks].  Witness: ex_prog in Proofs/ParseProgram5.v (canonical, and parses back). *)
+Theorem C02_program_roundtrip :
+  forall fok ds, cprog fok ds -> parse_vcl fok (flat_map ystmt ds) = POK (Vcl ds false).
+Proof. exact program_roundtrip. Qed.
+
 Print Assumptions C02_tables_are_documented.
 Print Assumptions C02_parse_expr_yield.
 Print Assumptions C02_parse_stmt_yield.
@@ -160,3 +193,8 @@ Print Assumptions C02_parse_vcl_total.
 Print Assumptions C02_parse_vcl_no_crash.
 Print Assumptions C02_parse_snippet_total.
 Print Assumptions C02_parse_snippet_no_crash.
+Print Assumptions C02_parse_error_located.
+Print Assumptions C02_parse_vcl_error_located.
+Print Assumptions C02_parse_snippet_error_located.
+Print Assumptions C02_parse_expression_error_located.
+Print Assumptions C02_program_roundtrip.
